@@ -2295,8 +2295,18 @@ class BaseInterpreter(Generic[TContext, TEvent]):
             final_state (StateNode): The final state that was just entered.
         """
         ancestor = final_state.parent
+        # 🌐 The nearest completed ancestor fires its `onDone`. A PARALLEL
+        #    state further up that is completed by this same entry fires too:
+        #    stopping at the first hit meant a parallel state's `onDone` never
+        #    fired when the region that completed last declared an `onDone` of
+        #    its own, so whether it fired depended on completion order.
+        fired = False
         while ancestor:
-            if ancestor.on_done and self._is_state_done(ancestor):
+            if (
+                ancestor.on_done
+                and (not fired or ancestor.type == "parallel")
+                and self._is_state_done(ancestor)
+            ):
                 logger.info(
                     "🎉 State '%s' is done, firing onDone event.", ancestor.id
                 )
@@ -2315,9 +2325,10 @@ class BaseInterpreter(Generic[TContext, TEvent]):
                 if getattr(self, "_processing", False):
                     self._raise_depth = getattr(self, "_raise_depth", 0) + 1
                 await self.send(done_event)
-                # Per SCXML, only fire for the first completed ancestor.
-                return
+                fired = True
             ancestor = ancestor.parent
+        if fired:
+            return
 
         # 🏁 A top-level final state completes the machine itself.
         #
